@@ -14,8 +14,8 @@ CLAIMED = {
          "DESIGN.md C08", "CBMC bit-precise integer/IEEE semantics; diag.c stub for the error interface; relocations cut; operator split inside EvalStrExpression, libm results, literals and functions not yet covered are outside the claim"),
  "C09": ("IEEE half/single/double/extended encoders of ieeefloat.c for every double bit pattern and both byte orders vs bit-level statements of IEEE-754 RNE / the x87 layout",
          "DESIGN.md C09", "CBMC's (float)/(_Float16) casts as round-to-nearest-even oracle; signalling-NaN payloads excluded; argument-list syntax, padding and integer range checks not yet covered"),
- "C13": ("EQU/SET rules through the real EnterIntSymbolWithFlags/SymbolAdder/LookupSymbol: a constant never changes silently, SET may, double definition and EQU/SET mixing are errors",
-         "DESIGN.md C13", "same cuts as C01; section resolution order, PUBLIC/GLOBAL/FORWARD, local handles, PUSHV/POPV, case folding and temporary symbols are not yet covered"),
+ "C13": ("EQU/SET rules through the real EnterIntSymbolWithFlags/SymbolAdder/LookupSymbol (a constant never changes silently, SET may, double definition and EQU/SET mixing are errors); resolution order of LookupSymbol/FindNode over a two-level section nesting incl. name[] / name[section] qualifiers; PUBLIC/GLOBAL/FORWARD list entries (CodePPSyms) take the target section of their own qualifier",
+         "DESIGN.md C13", "tree as list contract, name handling cut to identity on one-letter names, qualifier parsing (GetSymSection/IdentifySection) cut to maps; local handles, PUSHV/POPV, case folding, temporary symbols and the redirect lists of EnterSymbol are not covered"),
  "C16": ("ReadLnCont (strutil.c) on every file of <= 3 bytes (4 thorough): CR before LF and a trailing ^Z are immaterial, backslash-newline joins lines, the return value is the number of physical lines consumed",
          "DESIGN.md C16", "only the line reader; SplitLine (blanks/tabs/comments/colon), letter case, INCLUDE/macro wrapping and the per-target operand parsers are outside"),
  "C17": ("report-option non-interference at the emission step (2-safety by self-composition): the real WriteCode + BookKeeping run twice from the same arbitrary state under two arbitrary settings of -u/-g/-C/list mode/list mask and must hand the same records, counters and errors to the code-file writer",
